@@ -459,6 +459,22 @@ func runC20(r *mon.Run, replay string) {
 			seen[string(k1)] = ix
 			r.Count("keys_derived", 1)
 		}
+		// the same seed variable re-used for another phrase: keys follow the
+		// contents of the seed, not the variable
+		{
+			var e2 [16]byte
+			for j := range e2 {
+				e2[j] = byte(rng.Uint32())
+			}
+			if err := wallet.SeedFromPhrase(&s1, strings.Join(refEncode(words, e2), " ")); err == nil {
+				for _, ix := range idxs[:min(3, len(idxs))] {
+					if !bytes.Equal(wallet.KeyFromSeed(&s1, ix), refKey(seedOf(e2), ix)) {
+						r.Violation("key-derivation:seed-variable-reused", "after decoding another phrase into the same seed variable the derived key is not that of the new phrase", c20Case{Kind: "key-reuse", Phrase: phrase, Index: ix}, nil)
+					}
+					r.Count("keys_derived_from_reused_seed_variable", 1)
+				}
+			}
+		}
 		if i < 2 {
 			r.Sample(c20Case{Kind: "key", Phrase: phrase, Index: idxs[i]})
 		}
